@@ -1,2 +1,139 @@
-(* C01 - SELECT answers equal the SPARQL algebra over the stored dataset.  (theorems are added below as they are proved) *)
-Require Import KV.Sparql.Base KV.Sparql.Syntax KV.Sparql.Algebra.
+(* C01 - SELECT answers equal the SPARQL algebra over the stored dataset.
+   Only the property theorems: each is closed by `exact <lemma>` and followed by Print Assumptions.
+   Spec:  Algebra.v (`eval`, `modifiers`, `answer_full`: SPARQL 1.1 section 18 on the fragment).
+   Model: Lowering.v (`shape` = the parser's tree, `lower` = build_logical_plan_from_group_in_scope), PlanEquiv.v
+          (`implementsb` = the plans the optimizer may emit), Engine.v (`exec` = execute_with_ids_and_input,
+          `finalize_select`).  The check validates the model against the implementation on every run.
+
+   Staging (what is proved / what is covered by the correspondence against the executable Spec only):
+   - stage 1+2 PROVED: C01_pattern for BGP / group / UNION / GRAPH iri|var / VALUES+UNDEF / FILTER / BIND / sub-selects with
+     an explicit projection and [DISTINCT] [ORDER BY], FROM / FROM NAMED, any emitted plan;
+   - stage 3 PROVED: C01_answer (SELECT [DISTINCT] .. [ORDER BY] without LIMIT / aggregates: multiset of rows and key
+     order), C01_order_by, C01_distinct, C01_limit, C01_groups (component theorems of the modifiers);
+   - NOT proved (_partial, correspondence only): sub-selects with aggregates / GROUP BY / LIMIT / SELECT *, the value of
+     the aggregates, LIMIT as "a legal cut" of the whole answer, groups consisting of a single BIND or FILTER,
+     FILTER / BIND inside GRAPH ?g that mention ?g, a same-scope scan group that repeats a pattern. *)
+Require Import KV.Sparql.Base KV.Sparql.Syntax KV.Sparql.MuProofs KV.Sparql.JoinProofs KV.Sparql.Algebra KV.Sparql.Engine
+        KV.Sparql.Lowering KV.Sparql.PlanEquiv KV.Sparql.Sem KV.Sparql.Bridge KV.Sparql.Classes KV.Sparql.ScanProofs
+        KV.Sparql.SemProofs KV.Sparql.ExecLemmas KV.Sparql.BridgeProofs KV.Sparql.EngineProofs KV.Sparql.PlanProofs
+        KV.Sparql.PatternProofs KV.Sparql.ModifierProofs.
+Require Import Permutation Sorted.
+
+(* Stage 1, the input-propagation lemma: executing any plan the optimizer may emit for l on incoming rows that bind at
+   most `inb` is joining those rows with the denotation of l.  (ok_in: the complement of the classes
+   C01-undef-filter-sibling and C01-bind-target-sibling, computed on the lowered query.) *)
+Theorem C01_exec_input_join :
+  forall st ev, named_nodup ev ->
+  forall l p, implementsb l p = true -> nodup_groups l = true ->
+  forall inb active inc, ok_in inb l = true -> all_wf inc -> dom_in inb inc ->
+    exec st ev active p inc ≡ₚ join inc (sem st ev active l).
+Proof. exact exec_sem. Qed.
+Print Assumptions C01_exec_input_join.
+
+(* The lowering (parser tree + build_logical_plan_from_group_in_scope: filters deferred to the end of their group, BIND
+   in place, graph scope carried on scans) denotes the algebra's evaluation of the syntax tree, over the dataset view
+   (default graph = duplicate-free merge of the FROM graphs, named = visible catalogued graphs, GRAPH ?g ranging over
+   every visible graph including empty ones).
+   fragB: no sub-select under GRAPH ?g (class C01-subselect-in-graph-var), simple sub-selects, see Bridge.v.
+   agree: the engine's two-valued FILTER evaluation and its CONCAT agree with the algebra's error-propagating ones on
+   the rows the algebra feeds them - implied by the absence of the classes C01-not-of-error and C01-bind-arg-unbound
+   together with integer-typed ordering comparisons (that implication is not proved: partial). *)
+Theorem C01_lowering_is_algebra : forall ds q, dataset_ok ds ->
+  let vw := mk_view ds (q_from q) (q_from_named q) in
+  let ev := mk_eview ds (q_from q) (q_from_named q) in
+  let w := sel_where (q_sel q) in
+  fragB None w = true -> agree vw None w = true ->
+  sem ds ev None (lower_query (q_sel q)) ≡ₚ eval vw None w.
+Proof. exact lowering_is_algebra. Qed.
+Print Assumptions C01_lowering_is_algebra.
+
+(* C01_pattern: for every dataset and every query of the proved fragment, EVERY physical plan the optimizer may emit
+   produces exactly the solution multiset the SPARQL algebra assigns to the WHERE pattern. *)
+Theorem C01_pattern : forall ds q p, dataset_ok ds ->
+  let vw := mk_view ds (q_from q) (q_from_named q) in
+  let ev := mk_eview ds (q_from q) (q_from_named q) in
+  proved_fragment q = true ->
+  agree vw None (sel_where (q_sel q)) = true ->
+  implementsb (lower_query (q_sel q)) p = true ->
+  exec ds ev None p [[]] ≡ₚ eval vw None (sel_where (q_sel q)).
+Proof. exact pattern_correct. Qed.
+Print Assumptions C01_pattern.
+
+(* The five known findings, on the model: each witness is implemented by the default plan, lies in its class, and the
+   model's answer is NOT the algebra's. *)
+Theorem C01_subselect_in_graph_var_refuted :
+  wimpl wq_a = true /\ in_class 1 wq_a = true /\ ~ Permutation (wrun wds1 wq_a) (wspec wds1 wq_a).
+Proof. exact refuted_a. Qed.
+Print Assumptions C01_subselect_in_graph_var_refuted.
+Theorem C01_undef_filter_sibling_refuted :
+  wimpl wq_b = true /\ in_class 2 wq_b = true /\ ~ Permutation (wrun wds0 wq_b) (wspec wds0 wq_b).
+Proof. exact refuted_b. Qed.
+Print Assumptions C01_undef_filter_sibling_refuted.
+Theorem C01_bind_target_sibling_refuted :
+  wimpl wq_c = true /\ in_class 3 wq_c = true /\ ~ Permutation (wrun wds1 wq_c) (wspec wds1 wq_c).
+Proof. exact refuted_c. Qed.
+Print Assumptions C01_bind_target_sibling_refuted.
+Theorem C01_not_of_error_refuted :
+  wimpl wq_d = true /\ in_class 4 wq_d = true /\ ~ Permutation (wrun wds1 wq_d) (wspec wds1 wq_d).
+Proof. exact refuted_d. Qed.
+Print Assumptions C01_not_of_error_refuted.
+Theorem C01_bind_arg_unbound_refuted :
+  wimpl wq_e = true /\ in_class 5 wq_e = true /\ ~ Permutation (wrun wds0 wq_e) (wspec wds0 wq_e).
+Proof. exact refuted_e. Qed.
+Print Assumptions C01_bind_arg_unbound_refuted.
+
+(* ... and each witness violates a hypothesis of C01_pattern *)
+Theorem C01_witnesses_outside :
+  proved_fragment wq_a = false /\ proved_fragment wq_b = false /\ proved_fragment wq_c = false /\
+  agree (mk_view wds1 [] []) None (sel_where (q_sel wq_d)) = false /\
+  agree (mk_view wds0 [] []) None (sel_where (q_sel wq_e)) = false.
+Proof. exact witnesses_outside. Qed.
+Print Assumptions C01_witnesses_outside.
+
+(* Stage 3.  The final answer of SELECT [DISTINCT] cols .. [ORDER BY] (no aggregate, no cut), as finalize_select computes
+   it from solutions that are a permutation of the algebra's, is the algebra's answer as a multiset of rows ... *)
+Theorem C01_answer : forall s rows rows', plain_sel s = true -> rows ≡ₚ rows' ->
+  finalize_select s rows ≡ₚ render (columns s) (modifiers s rows').
+Proof. exact answer_nolimit. Qed.
+Print Assumptions C01_answer.
+
+(* ... and its row sequence is sorted by the ORDER BY keys (on key columns where the comparator is transitive). *)
+Theorem C01_answer_sorted : forall s rows, plain_sel s = true ->
+  let ob := match s with Sel _ _ _ _ ob _ => ob end in
+  Relations_1.Transitive (ob_le ob) ->
+  exists seq, finalize_select s rows = render (columns s) seq /\ StronglySorted (ob_le ob) seq.
+Proof. exact answer_sorted. Qed.
+Print Assumptions C01_answer_sorted.
+
+(* ORDER BY (apply_order_by / apply_subquery_order): a permutation of its input in which no row sorts after its successor. *)
+Theorem C01_order_by : forall ob l, esort ob l ≡ₚ l /\ Sorted (ob_le ob) (esort ob l).
+Proof. exact (fun ob l => conj (esort_perm ob l) (esort_sorted ob l)). Qed.
+Print Assumptions C01_order_by.
+
+(* DISTINCT on the projected columns: pairwise different projections, a sub-list of the input, every input row represented. *)
+Theorem C01_distinct : forall cols rows,
+  let out := dedup (proj_eq cols) rows in
+  NoDup (map (restrict cols) out) /\
+  (forall r, In r out -> In r rows) /\
+  (forall r, In r rows -> exists r', In r' out /\ restrict cols r' = restrict cols r).
+Proof. exact distinct_spec. Qed.
+Print Assumptions C01_distinct.
+
+(* LIMIT n: the first min(n, length) rows of the (ordered, distinct-ed) sequence - a legal cut of it. *)
+Theorem C01_limit : forall n (l : list mu),
+  exists rest, l = firstn n l ++ rest /\ List.length (firstn n l) = Nat.min n (List.length l).
+Proof. exact (@limit_prefix mu). Qed.
+Print Assumptions C01_limit.
+
+(* GROUP BY: the groups are exactly the non-empty classes of input rows with equal key, each in input order (the
+   aggregates are folds over these lists: eagg_value / agg_value). *)
+Theorem C01_groups : forall gb rows k ms,
+  In (k, ms) (groups_of gb rows) <-> (ms <> [] /\ ms = filter (fun m => key_eqb (group_key gb m) k) rows).
+Proof. exact groups_of_spec. Qed.
+Print Assumptions C01_groups.
+
+(* non-vacuity of C01_pattern: GRAPH ?g, UNION, VALUES with UNDEF, FILTER, BIND and a DISTINCT / ORDER BY sub-select *)
+Example C01_example :
+  proved_fragment wq_ok = true /\ agree (mk_view wds1 [] []) None (sel_where (q_sel wq_ok)) = true /\
+  wimpl wq_ok = true /\ List.length (wspec wds1 wq_ok) = 3%nat.
+Proof. exact example_ok. Qed.
